@@ -79,8 +79,12 @@ theorem pushObj_empty (rc : RxCfg) (o : ObjCfg) (hE : o.ks.isEmpty = true) (st :
           exact ⟨hnd, by intro rx' h hatt; simp only [Option.some.injEq] at h; subst h; exact absurd hatt ha⟩
       · have hkn' : rx.otiKnown = false := by simpa using hkn
         simp only [hkn', Bool.not_false, ↓reduceIte]
-        rw [finish_receiving o st _ rfl]
-        exact ⟨hnd, by intro rx' h hatt; simp only [Option.some.injEq] at h; subst h; simp at hatt; exact absurd hatt ha⟩
+        split
+        · unfold finish
+          simp only [ha', Bool.false_eq_true, ↓reduceIte]
+          exact ⟨hnd, by intro rx' h; simp at h⟩
+        · rw [finish_receiving o st _ rfl]
+          exact ⟨hnd, by intro rx' h hatt; simp only [Option.some.injEq] at h; subst h; simp at hatt; exact absurd hatt ha⟩
 
 /-- any event keeps `EGood`; a packet that finds the object attached or attachable delivers it -/
 theorem stepObj_empty (rc : RxCfg) (o : ObjCfg) (hE : o.ks.isEmpty = true) (st : OState) (e : Ev) (h : EGood st) :
